@@ -23,7 +23,8 @@ vars == <<l, c, psi, viol, drift, stats>>
 Init == l = 1 /\ c = [n |-> 0, gates |-> <<>>] /\ psi = <<>> /\ viol = <<>> /\ drift = <<>>
         /\ stats = [circuits |-> 0, amps |-> 0, exps |-> 0, draws |-> 0, samples |-> 0, malformed |-> 0, nontrivial |-> 0,
                     variants |-> 0, default_task |-> 0, zero_shots |-> 0, out_file |-> 0, par_flag |-> 0,
-                    file_errors |-> 0, file_unsupported |-> 0, file_unsupported_accepted |-> 0, file_outside |-> 0, file_outside_panics |-> 0]
+                    file_errors |-> 0, file_unsupported |-> 0, file_unsupported_accepted |-> 0, file_outside |-> 0, file_outside_panics |-> 0,
+                    generic_circuits |-> 0, generic_queries |-> 0]
 V(ok, name, e) == IF ok THEN <<>> ELSE <<<<l, name>>>>
 BitsOf(chars) == LET s == Broadcast(chars, c.n) IN [k \in 1..c.n |-> BitOf(s[k])]
 PaulisOf(chars) == LET s == Broadcast(chars, c.n) IN [k \in 1..c.n |-> Upper(s[k])]
@@ -69,6 +70,25 @@ Step(e) ==
          /\ viol' = V(Succeeded(e), "QuerySucceeds", e) \o (IF Succeeded(e) THEN RunsViol(e.runs, 1) ELSE <<>>) \o viol
          /\ stats' = VarStats([stats EXCEPT !.samples = @ + e.shots, !.draws = @ + e.shots * c.n, !.nontrivial = @ + 1], e)
          /\ UNCHANGED <<c, psi, drift>>
+    \* ---- generic-phase tier (angles that are not multiples of pi/4): the harness compares with its float reference state
+    \* vector (refeval.rs, validated against CircSem by RefEvalOK in the C08 traces) and TLC judges the logged booleans
+    [] e.k = "circf" ->
+         c' = [n |-> e.n, gates |-> <<>>] /\ psi' = <<>> /\ stats' = [stats EXCEPT !.generic_circuits = @ + 1] /\ UNCHANGED <<viol, drift>>
+    [] e.k \in {"ampf", "expf"} ->
+         /\ viol' = V(Succeeded(e), "QuerySucceeds", e)
+                     \o (IF Succeeded(e) THEN V(e.close, IF e.k = "ampf" THEN "ProbabilityFloatOK" ELSE "ExpectationFloatOK", e) ELSE <<>>) \o viol
+         /\ stats' = [stats EXCEPT !.generic_queries = @ + 1, !.nontrivial = @ + 1] /\ UNCHANGED <<c, psi, drift>>
+    [] e.k = "samplef" ->
+         /\ viol' = V(Succeeded(e), "QuerySucceeds", e)
+                     \o (IF Succeeded(e) THEN
+                           V(\A k \in 1..Len(e.runs) : e.runs[k].marg_ok, "MarginalFloatOK", e)
+                           \o V(\A k \in 1..Len(e.runs) : e.runs[k].in_range, "ProbabilityInRange", e)
+                           \o V(\A k \in 1..Len(e.runs) : e.runs[k].cond_ok, "ConditionalFloatOK", e)
+                           \o V(\A k \in 1..Len(e.runs) : e.runs[k].is_drawn_bits, "SampleIsDrawnBits", e)
+                           \o V(\A k \in 1..Len(e.runs) : e.runs[k].nonzero, "SampleHasNonZeroProbability", e)
+                           \o V(Len(e.runs) = e.shots, "QuerySucceeds", e)
+                         ELSE <<>>) \o viol
+         /\ stats' = [stats EXCEPT !.generic_queries = @ + 1, !.samples = @ + e.shots, !.nontrivial = @ + 1] /\ UNCHANGED <<c, psi, drift>>
     [] e.k = "query" ->
          LET valid == CASE e.kind = "bits" -> StringValid(e.chars, BitChars, c.n)
                         [] e.kind = "paulis" -> StringValid(e.chars, PauliChars, c.n)
